@@ -334,7 +334,7 @@ func (t *mfTarget) request(h []byte) (req string, refs [][]int, refOK []bool, ok
 			aLimit = aMax
 			var as []string
 			// the ASCII backtracker is not told about SetLongest (engine.go:250-256): it always answers leftmost-first
-			are := t.re
+			are := re
 			for a := 0; a <= n; a++ {
 				if isASCII(h[a:]) {
 					if l := are.FindIndex(h[a:]); l != nil {
